@@ -92,6 +92,7 @@ class NaniteFitModel:
             "parameter_units",
             "valid_axes_x",
             "valid_axes_y",
+            "model_func",
              ]:
             if not hasattr(self.module, attr):
                 missing.append(attr)
@@ -150,13 +151,17 @@ class NaniteFitModel:
         p_def = list(self.module.get_parameter_defaults().keys())
         p_arg = list(inspect.signature(
             self.module.model_func).parameters.keys())
+        if len(p_def) < len(self.module.parameter_keys):
+            raise ModelImplementationError(
+                "'get_parameter_defaults' does not return all "
+                + f"'parameter_keys' for model '{model_key}'!")
         for ii, key in enumerate(self.module.parameter_keys):
             if key != p_def[ii]:
                 raise ModelImplementationError(
                     "Please check 'parameter_keys' and "
                     + f"'get_parameter_defaults'  of the model '{model_key}'. "
                     + f"Keys {key} and {p_def[ii]} are not in order!")
-            if key != p_arg[ii+1]:
+            if len(p_arg) <= ii + 1 or key != p_arg[ii+1]:
                 warnings.warn(
                     "Please make sure that the parameters of the model "
                     + "function are in the same order as in 'parameter_keys' "
